@@ -46,7 +46,10 @@ add("C01", "other",
     "(C01_statement_sessions_partial; C01_statement_sem_vs_vm ties Sem.eval and the run through worlds that agree off the function "
     "names, which the two sides bind to different representations; C01_sessions_sem_vs_vm_partial (StmtMixed.v) does so over whole "
     "sessions with definitions, between sem_tree and run_tree - the two functions this check evaluates next to the real interpreter - "
-    "from the start states of a real session). Not proved: user functions whose bodies are not expressions, "
+    "from the start states of a real session; the checkers the run evaluates on every generated session - the machine and the Sem "
+    "state after the session's first tree, and the remaining trees - are proved sound for these theorems' premises, so the trees the "
+    "evidence counts as covered are covered: C01_counted_trees_are_covered, C01_counted_trees_are_covered_sem_vs_vm). "
+    "Not proved: user functions whose bodies are not expressions, "
     " definitions inside blocks or functions, exit, calls nested in expressions, generators, closures "
     "(full statement: C01_compile_correct_statement). The property is "
     "decided each run by differential testing: generated sessions are run on the real code and compared, inside Coq, with Sem "
